@@ -249,6 +249,12 @@ def siblings(prog, rep, fam):
             cand |= {a for a in flat_alts(fam.b(fn).term(r_.value, r_)) if a[0] != "const"}
         t = phi(cand) if cand else ("const", None)
         site = fn.where(ret)
+        if mname == "draw_sample":
+            from .distfam import rvs_call
+            t, problem = rvs_call(t, dist)
+            if problem:
+                rep.fail("C05.siblings", inst + ":slots", site, problem)
+                continue
         if t[0] != "call":
             rep.fail("C05.siblings", inst + ":call", site, f"does not return a scipy call: {show(t)[:120]}")
             continue
@@ -373,7 +379,7 @@ def generic(prog, rep, fam):
     want_base = ("call", G("list"), (("call", ("attr", ("attr", SELF, "parameters"), "values"), (), ()),), ())
     rep.check(base == want_base, "C05.generic", f"{ci.qualname}._get_scipy_parameters:defaults", site,
               "defaults are list(self.parameters.values())", f"returned list must start from list(self.parameters.values()), found {show(base)[:120]}")
-    pos_ok = kw_ok = False
+    pos_ok = kw_ok = kw_none_ok = False
     pcs = path_conditions(prog, fn, b)
     for st in cfg.all_stmts():
         if isinstance(st, ast.Assign) and isinstance(st.targets[0], ast.Subscript):
@@ -395,10 +401,14 @@ def generic(prog, rep, fam):
                         k = a[2][0]
                         if k[0] == "key" and k[1] == P("kwargs") and val == ("sub", P("kwargs"), k):
                             kw_ok = True
+                            kw_none_ok = ("not", ("isnone", val)) in pcs.of(st)
     rep.check(pos_ok, "C05.generic", f"{ci.qualname}._get_scipy_parameters:positional", site,
               "positional override i replaces slot i when not None", "positional override must replace slot i by args[i] under 'is not None'")
     rep.check(kw_ok, "C05.generic", f"{ci.qualname}._get_scipy_parameters:keyword", site,
               "keyword override replaces the slot self._param_names.index(key)", "keyword override must replace the slot at self._param_names.index(key) by its own value")
+    rep.check(kw_none_ok, "C05.generic", f"{ci.qualname}._get_scipy_parameters:keyword-none", site,
+              "a keyword given as None leaves the stored value in its slot (like a positional None)",
+              "a parameter passed by keyword as None must mean 'use the stored value', as it does positionally and in every hand-written family; it is put into the slot instead")
     lf = prog.lookup_method(ci, "_list_scipy_parameters")
     okl = False
     if lf is not None:
